@@ -260,7 +260,8 @@ CHECKS["C13"] = {
                "thorough": {"same": "same"}},
     "assumptions": CHECKS["C10"]["assumptions"] + ["playlist bytes: Unmarshal totality and post-conditions are C15's subject; the client indexes only what those post-conditions guarantee"],
     "outside": ["truncation inside mediacommon's parsers", "MPEG-TS payloads", "busy-loop freedom beyond: every loop iteration consumes a queue element or blocks (engine deadlock / step bound)"],
-    "runs": [{"name": "run.cli.fmp4.malformed", "files": CLIP, "fn": "VerifH_C13_fmp4", "workers": 16, "reach": ["ran"], "budget_quick": 900, "budget_thorough": 7200, "qtimeout": 10000}],
+    "runs": [{"name": "run.cli.fmp4.malformed", "files": CLIP, "fn": "VerifH_C13_fmp4", "workers": 16, "reach": ["ran"], "budget_quick": 900, "budget_thorough": 7200, "qtimeout": 10000},
+             {"name": "run.cli.lowlatency.playlists", "files": [G + "c11_fetch.go"] + CLI, "fn": "VerifH_C11_lowlatency", "workers": 16, "params_quick": {"ITERS": 2}, "params_thorough": {"ITERS": 3}, "reach": ["ran"]}],
 }
 
 C12F = [G + "c12_client.go"] + CLIP
